@@ -1,4 +1,5 @@
 import AC.SeqAlg
+import AC.HeurTie
 /-! # C08 — addition-sequence algorithms return a valid chain containing every target
 
 Model: `P.SeqAlg.find` — `heuristic.Algorithm.FindSequence` (Bos–Coster loop over `Suggest` of
@@ -39,5 +40,22 @@ theorem C08_strategy_range (s : Strategy) : StratOK s := stratOK_all s
 
 /-- non-vacuity -/
 example : (Heur.useFirst [.halving, .deltaLargest]).isTotal = true := by decide
+
+/-! ## `Halving.Suggest` and `DeltaLargest.Suggest` as TRANSLATED from heuristic.go
+
+`AC/Gen/ProgramFns.lean` is regenerated from the Go source on every run (harness/cmd/extract/gotr.go);
+`AC/HeurTie.lean` proves the translated functions equal to the models the theorems above are about. -/
+
+/-- the translated `Halving.Suggest`, on a non-empty protosequence with a positive last element and a
+    non-negative target: never panics and returns the model's suggestion (`[]` = nil = no suggestion) -/
+theorem C08_src_halving (f : List Int) (t : Int) (hf : f ≠ []) (hnext : 0 < f.getLastD 0) (ht : 0 ≤ t) :
+    AC.Gen.Program.heuristicHalvingSuggest f t = some ((suggestHalving f t).getD []) :=
+  AC.HeurTie.halving_tie f t hf hnext ht
+
+/-- the translated `DeltaLargest.Suggest` panics exactly when the target does not exceed the last
+    element and otherwise suggests the difference -/
+theorem C08_src_deltaLargest (f : List Int) (t l : Int) (hl : f.getLast? = some l) :
+    AC.Gen.Program.heuristicDeltaLargestSuggest f t = if t - l ≤ 0 then none else some [t - l] :=
+  AC.HeurTie.deltaLargest_tie f t l hl
 
 end AC.Props.C08
